@@ -325,6 +325,8 @@ func sortedFuncs(m map[*load.FuncInfo]bool) []*load.FuncInfo {
 // ---------- propositional normalisation of facts
 
 // lit is a literal: an atomic expression with a polarity.
+type clauseLit = lit
+
 type lit struct {
 	E   ast.Expr
 	Pos bool
